@@ -879,3 +879,21 @@ func (w *World) RotateNodeCreds(a *Actor) error {
 	a.fill()
 	return nil
 }
+
+// FlakyWrapper passes everything through to W, except that its FailAt-th Encrypt
+// call (1-based, counted from the last Reset) fails.
+type FlakyWrapper struct {
+	wrapping.Wrapper
+	FailAt int
+	calls  int
+}
+
+func (f *FlakyWrapper) Reset() { f.calls = 0 }
+
+func (f *FlakyWrapper) Encrypt(ctx context.Context, pt []byte, opt ...wrapping.Option) (*wrapping.BlobInfo, error) {
+	f.calls++
+	if f.calls == f.FailAt {
+		return nil, errors.New("key management service unavailable")
+	}
+	return f.Wrapper.Encrypt(ctx, pt, opt...)
+}
